@@ -174,3 +174,29 @@ def state_diff(a, b, rtol=0.0, atol=0.0, skip=()):
         if p not in ma:
             return "%s missing in first" % p
     return None
+
+
+def parameter_mutation(before, after):
+    """Like digest_diff, but tolerant of lazily filled caches: a private attribute (last path component starts with
+    '_') that was absent or None before and exists afterwards is not a mutation of the object's observable
+    state.  Everything that existed before must be unchanged; public attributes may not appear or disappear."""
+    mb, ma = dict(before), dict(after)
+
+    def private_leaf(path):
+        # the owning attribute of the path: first component after the last '.' that starts a private name
+        parts = [q for q in path.replace("]", "").replace("[", ".").split(".") if q]
+        return any(q.startswith("_") and not q.startswith("__") for q in parts)
+
+    for p, t in before:
+        if p not in ma:
+            if private_leaf(p) and t == ("v", "NoneType", None):
+                continue
+            return (p, t, "<missing>")
+        if ma[p] != t:
+            if private_leaf(p) and t == ("v", "NoneType", None):
+                continue  # a cache slot initialised to None got filled
+            return (p, t, ma[p])
+    for p, t in after:
+        if p not in mb and not private_leaf(p):
+            return (p, "<missing>", t)
+    return None
